@@ -238,7 +238,6 @@ func (idx *FlatIndex) Remove(vector VectorNode) error {
 	}
 	alreadyDeleted := idx.deletedNodes.Contains(id)
 	idx.mu.RUnlock()
-	verifPoint("flat:remove:window")
 
 	// Fast-fail validation outside of write lock
 	if !exists {
